@@ -5,6 +5,7 @@
 From Coq Require Import ZArith List Bool.
 Import ListNotations.
 Require Import SZV.Base.Bytes SZV.Base.BitPack SZV.Gen.SrcConsts SZV.Model.Huffman SZV.Proofs.Bytes_proofs SZV.Proofs.Huffman_proofs.
+Require Import SZV.Model.Consistency SZV.Proofs.Consistency_proofs.
 Local Open Scope Z_scope.
 
 (* bit-serial decoder (decode): payload bytes followed by anything decode to the sequence *)
@@ -58,6 +59,11 @@ Proof. split; reflexivity. Qed.
 Print Assumptions C11_thresholds_from_source.
 
 (* non-vacuity: a three-leaf tree, a sequence, its payload and both decoders *)
+(* read from the source on every run: the byte in front of a serialised tree records the machine's byte order in all three table layouts (not the byte order declared for input files) *)
+Theorem C11_tree_marker_is_machine_order : huff_marker_ok = true.
+Proof. exact huff_marker_hold. Qed.
+Print Assumptions C11_tree_marker_is_machine_order.
+
 Example C11_ex :
   let t := Node (Leaf 7) (Node (Leaf 0) (Leaf 65535)) in
   let s := [7; 65535; 0; 7; 7; 0] in
